@@ -8,6 +8,7 @@ puts each value into the field tagged with its key, and the dispatch on __typena
 checked on the compiled code against an independent reference executor.
 -/
 import Genq.Model.Collect
+import Genq.Model.CollectSpread
 import Genq.Model.Codec
 import Genq.Model.CodecSkel
 import Genq.Extracted.Codec
@@ -82,6 +83,46 @@ end
 theorem C02_struct_fields_are_collectFields (lookup : String → Option TypeDef) (obj : TypeDef) (wf : WF lookup obj)
     (sel : List S) : genqKeysList lookup obj sel = specKeysList lookup obj sel :=
   keys_eq_list lookup obj wf sel
+
+/-- **C02_struct_fields_are_collectFields_with_spreads** — the same with named fragment spreads, to any nesting of
+    fragments in fragments: the response keys carried by the struct generated for an object type together with
+    every fragment struct embedded in it (at any depth) are exactly the keys CollectFields produces for that
+    runtime type — for every fuel (nesting bound), so for every program. -/
+theorem C02_struct_fields_are_collectFields_with_spreads (lookup : String → Option TypeDef) (frags : Frags)
+    (obj : TypeDef) (wf : WF lookup obj) :
+    ∀ (fuel : Nat) (s : S2), genqKeys2 lookup frags obj fuel s = specKeys2 lookup frags obj fuel s := by
+  intro fuel
+  induction fuel with
+  | zero => intro s; rfl
+  | succ fuel ih =>
+    intro s
+    have hl : ∀ l : List S2, l.flatMap (genqKeys2 lookup frags obj fuel) = l.flatMap (specKeys2 lookup frags obj fuel) := by
+      intro l
+      induction l with
+      | nil => rfl
+      | cons x xs ihl => simp only [List.flatMap_cons, ih x, ihl]
+    cases s with
+    | field k => rfl
+    | inline c sub =>
+      cases c with
+      | none => simp only [genqKeys2, specKeys2, hl]
+      | some c =>
+        simp only [genqKeys2, specKeys2]
+        cases h : lookup c with
+        | none => rfl
+        | some td =>
+          simp only [C02_fragmentMatches_is_DoesFragmentTypeApply lookup obj td c wf h, hl]
+    | spread n =>
+      simp only [genqKeys2, specKeys2]
+      cases hf : frags n with
+      | none => rfl
+      | some p =>
+        obtain ⟨c, sel⟩ := p
+        simp only
+        cases h : lookup c with
+        | none => rfl
+        | some td =>
+          simp only [C02_fragmentMatches_is_DoesFragmentTypeApply lookup obj td c wf h, hl]
 
 /-- the defect a nested fragment matched against the ENCLOSING FRAGMENT's type (instead of the
     type the struct is generated for) causes: `... on Content { ... on Video { duration } }` in a
